@@ -731,6 +731,7 @@ func (ssn *Session) Pipeline(task *api.TaskInfo, hostname string) error {
 		if err := node.AddTask(task); err != nil {
 			klog.Errorf("Failed to add task <%v/%v> to node <%v> when pipeline in Session <%v>: %v",
 				task.Namespace, task.Name, hostname, ssn.UID, err)
+			ssn.revertPlacement(job, task)
 			return err
 		}
 		klog.V(3).Infof("After pipelined Task <%v/%v> to Node <%v>: idle <%v>, used <%v>, releasing <%v>",
@@ -738,6 +739,7 @@ func (ssn *Session) Pipeline(task *api.TaskInfo, hostname string) error {
 	} else {
 		klog.Errorf("Failed to find Node <%s> in Session <%s> index when pipeline.",
 			hostname, ssn.UID)
+		ssn.revertPlacement(job, task)
 		return fmt.Errorf("failed to find node %s", hostname)
 	}
 
@@ -773,6 +775,7 @@ func (ssn *Session) Allocate(task *api.TaskInfo, nodeInfo *api.NodeInfo) (err er
 		if err := node.AddTask(task); err != nil {
 			klog.Errorf("Failed to add task <%v/%v> to node <%v>  when binding in Session <%v>: %v",
 				task.Namespace, task.Name, hostname, ssn.UID, err)
+			ssn.revertPlacement(job, task)
 			return err
 		}
 		klog.V(3).Infof("After allocated Task <%v/%v> to Node <%v>: idle <%v>, used <%v>, releasing <%v>",
@@ -780,6 +783,7 @@ func (ssn *Session) Allocate(task *api.TaskInfo, nodeInfo *api.NodeInfo) (err er
 	} else {
 		klog.Errorf("Failed to find Node <%s> in Session <%s> index when binding.",
 			hostname, ssn.UID)
+		ssn.revertPlacement(job, task)
 		return fmt.Errorf("failed to find node %s", hostname)
 	}
 
@@ -803,6 +807,13 @@ func (ssn *Session) Allocate(task *api.TaskInfo, nodeInfo *api.NodeInfo) (err er
 	}
 
 	return nil
+}
+
+// revertPlacement undoes the status change of a Pipeline/Allocate whose node
+// refused the task (or is unknown), so that a failed call leaves no trace.
+func (ssn *Session) revertPlacement(job *api.JobInfo, task *api.TaskInfo) {
+	job.UpdateTaskStatus(task, api.Pending)
+	task.NodeName = ""
 }
 
 func (ssn *Session) dispatch(task *api.TaskInfo) error {
